@@ -305,9 +305,10 @@ def run_property(tier, seed_value):
                 raise
 
     # (2b) stateful: the same call repeated while the repository changes must follow the command line
-    OPS = ["commit", "tag", "dirty", "clean", "call-version", "call-flow", "call-version-zerv"]
+    # (calls with stdin that fail or succeed in between: nothing of them may leak into the next call)
+    OPS = ["commit", "tag", "dirty", "clean", "call-version", "call-flow", "call-version-zerv", "call-stdin-fails", "call-stdin-ok", "call-flow-stdin-fails", "call-render-fails"]
     @seed(seed_value + 2)
-    @settings(max_examples=12 if tier == "quick" else 150, database=None, deadline=None, suppress_health_check=list(HealthCheck))
+    @settings(max_examples=20 if tier == "quick" else 250, database=None, deadline=None, suppress_health_check=list(HealthCheck))
     @given(st.lists(st.sampled_from(OPS), min_size=3, max_size=9))
     def stateful(ops):
         repo = tempfile.mkdtemp(prefix="st-", dir=TMP)
@@ -334,6 +335,14 @@ def run_property(tier, seed_value):
                     guarded("version", [], {"repo_path": repo})
                 elif op == "call-version-zerv":
                     guarded("version", [], {"repo_path": repo, "output_format": "zerv"})
+                elif op == "call-stdin-fails":
+                    guarded("version", [], {"source": "stdin", "stdin": STDIN_OBJECT, "schema": "standard", "schema_ron": "(core:[],extra_core:[],build:[])"})
+                elif op == "call-stdin-ok":
+                    guarded("version", [], {"source": "stdin", "stdin": STDIN_OBJECT, "output_format": "pep440"})
+                elif op == "call-flow-stdin-fails":
+                    guarded("flow", [], {"source": "stdin", "stdin": "this is not RON"})
+                elif op == "call-render-fails":
+                    guarded("render", ["not a version"], {})
                 else:
                     guarded("flow", [], {"repo_path": repo, "post_mode": "commit"})
         finally:
